@@ -252,6 +252,73 @@ func c10Body(o c10Opts) func() {
 	}
 }
 
+// c10FullQueueBody: Close at the moment the send queue is full (the peer's event loop is not running): the close
+// notification cannot go through the queue and has to reach the peer all the same - once the peer runs again it drains
+// what was flushed, then reads end-of-stream and cannot send any more.
+func c10FullQueueBody(serverCloses bool) func() {
+	return func() {
+		p := newEPair(pairOpts{QueueCap: 1})
+		var cst, sst *Stream
+		vrt.Quiet(true)
+		tc := vrt.GoProc("open-c", 1, func() {
+			cst, _ = p.c.OpenStream()
+			cst.BufferWriter().WriteBytes([]byte{0x55})
+			cst.Flush(false)
+		})
+		ts := vrt.GoProc("open-s", 2, func() {
+			sst, _ = p.s.AcceptStream()
+			sst.BufferReader().ReadBytes(1)
+			sst.BufferReader().ReleasePreviousRead()
+		})
+		vrt.WaitThreads(tc, ts)
+		vrt.WaitIdle(0)
+		vrt.Quiet(false)
+		if cst == nil || sst == nil {
+			vrt.Failf("harness", "could not establish the stream")
+		}
+		closer, other, closerProc, otherProc := cst, sst, 1, 2
+		if serverCloses {
+			closer, other, closerProc, otherProc = sst, cst, 2, 1
+		}
+		p.router.paused[otherProc] = true // the peer stops consuming: the closer's send queue (1 element) fills up
+		data := patBytes(3, 0, 5)
+		t1 := vrt.GoProc("closer", closerProc, func() {
+			closer.BufferWriter().WriteBytes(data)
+			if err := closer.Flush(false); err != nil {
+				vrt.Failf("harness", "flush into the empty queue: %v", err)
+			}
+			if err := closer.Close(); err != nil {
+				vrt.Count("close-returned:" + err.Error())
+			}
+		})
+		vrt.WaitThreads(t1)
+		p.router.paused[otherProc] = false
+		vrt.WaitIdle(vrt.Second)
+		t2 := vrt.GoProc("peer", otherProc, func() {
+			other.SetReadDeadline(vrt.Now().Add(3 * vrt.Second))
+			got, err := other.BufferReader().ReadBytes(len(data))
+			if err != nil || string(got) != string(data) {
+				vrt.Failf("drain", "the peer could not drain what was flushed before the close: %x, %v", got, err)
+			}
+			_, err = other.BufferReader().ReadBytes(1)
+			if err == ErrTimeout {
+				vrt.Failf("peer-never-told", "Close was called while the send queue was full; 3 virtual seconds after the peer runs again it still has not been told (its read timed out, stream state %d)", other.getStreamState())
+			}
+			if err != ErrEndOfStream {
+				vrt.Failf("peer-eof", "peer read after draining returned %v, want ErrEndOfStream", err)
+			}
+			other.BufferWriter().WriteBytes([]byte("x"))
+			if err := other.Flush(false); err != ErrStreamClosed {
+				vrt.Failf("peer-can-send", "peer Flush after the close returned %v", err)
+			}
+			other.Close()
+		})
+		vrt.WaitThreads(t2)
+		vrt.WaitIdle(vrt.Second)
+		vrt.Outcome(fmt.Sprintf("closer=%d peer=%d", closer.getStreamState(), other.getStreamState()))
+	}
+}
+
 func TestVerif_C10(t *testing.T) {
 	mk := func(o c10Opts, b, bt int) bScenario {
 		return bScenario{Name: o.name, Bound: b, BoundT: bt, Body: c10Body(o)}
@@ -270,5 +337,7 @@ func TestVerif_C10(t *testing.T) {
 		mk(c10Opts{name: "callback-server-local-close", serverCB: true, serverCloses: true, clientReadEOF: true}, 2, 3),
 		mk(c10Opts{name: "close-inside-ondata", serverCB: true, closeInCB: true, clientReadEOF: true}, 2, 3),
 		mk(c10Opts{name: "peer-close-during-ondata-then-close-inside", serverCB: true, closeInCB: true, waitRemote: true, clientCloses: true}, 1, 2),
+		{Name: "close-while-send-queue-full-client", Bound: 1, BoundT: 2, Body: c10FullQueueBody(false)},
+		{Name: "close-while-send-queue-full-server", Bound: 1, BoundT: 2, Body: c10FullQueueBody(true)},
 	})
 }
